@@ -1104,6 +1104,10 @@ def _g3(ctx: Context) -> None:
             gate += ctx.normal_out(rcfg, n)
         for n, _c in ctx.nodes_calling_name(rcfg, "_start_reconnecting", "_start_connector"):
             gate += ctx.normal_out(rcfg, n)
+        # `_start_reconnecting` written out in place: nothing is started when the connection is up already
+        for n in rcfg.nodes:
+            if n.kind == "test" and _self_attr(strip_sites(T.of(rcfg, n, n.exprs[0]))) == "is_connected":
+                gate += ctx.edges(rcfg, n, "T")
         ctx.must_pass("C10.G3", rcfg, rcfg.exit, "wake-up or _start_reconnecting()", gate,
                       desc="reconnect_soon: every return either woke the sleeping connector or started reconnecting")
         # nobody else completes it
